@@ -296,9 +296,9 @@ PROPS = {
     ),
     "C15": dict(
         level="fault_enumeration", monitors={"mon_alloc": {"sources": ["mon_alloc.c", "vf_alloc.c", "vf.c"], "link": ["-Wl,--wrap=malloc,--wrap=calloc,--wrap=realloc,--wrap=free"]}},
-        runs=[dict(name="asan", monitor="mon_alloc", flavour="asan", cases={"quick": 36 * 3, "thorough": 36 * 40}),
-              dict(name="plain", monitor="mon_alloc", flavour="plain", cases={"quick": 36 * 6, "thorough": 36 * 120})],
-        rule="36 scenarios (region union/subtract/intersect/inverse/in-place/copy/init_rects with validation (overlapping grids; many two-box partial regions merged pairwise)/union_rect growth/16-bit, the same operations into a result that already owns a smaller or larger rectangle array (32- and 16-bit), init_from_image, image and gradient constructors, setters that copy and setters that REPLACE an owned clip / filter / transform / alpha map, filter creation, wide-pipeline gradients and separable filters, many overlapping triangles/trapezoids (drawn once or not at all), glyph-cache traffic with tombstones and long mixed-format runs, fills through many-box clips, "
+        runs=[dict(name="asan", monitor="mon_alloc", flavour="asan", cases={"quick": 42 * 3, "thorough": 42 * 40}),
+              dict(name="plain", monitor="mon_alloc", flavour="plain", cases={"quick": 42 * 6, "thorough": 42 * 120})],
+        rule="42 scenarios (region union/subtract/intersect/inverse/in-place/copy/init_rects with validation (overlapping grids; many two-box partial regions merged pairwise)/union_rect growth/16-bit, the same operations into a result that already owns a smaller or larger rectangle array (32- and 16-bit), init_from_image, image and gradient constructors, setters that copy and setters that REPLACE an owned clip / filter / transform / alpha map, filter creation, wide-pipeline gradients and separable filters, many overlapping triangles/trapezoids (drawn once or not at all), glyph-cache traffic with tombstones and long mixed-format runs, fills through many-box clips, five single-draw scenarios in which every destination pixel must be untouched or hold the failure-free result, a reused 16-bit result region in compute_composite_region, "
              "composites through the general path with scanline buffers beyond the stack buffer, alpha-map destination and transformed sources, glyph cache insert + composite_glyphs(_no_mask), composite_trapezoids/triangles + add_*, "
              "fill_rectangles/fill_boxes, compute_composite_region); each is run once to count its N allocations (malloc/calloc/realloc wrapped at link time), then for EVERY k in 1..N with allocation k failing once and with k and all later ones failing; "
              "oracles: no crash / ASan report, failures reported (NULL / FALSE), a failed region operation leaves the broken region which later operations propagate and fini accepts, calls that report success give the failure-free result, "
@@ -306,7 +306,7 @@ PROPS = {
         floors={"any": {"injected_runs": 400, "failures_reported": 100, "labels:failed_site": 15}},
         exhaustive={"quick": True, "thorough": True},
         exhaustive_note="exhaustive over (scenario, k, once/persistent) for the listed scenarios; the thorough tier repeats them with 40..120 size variants",
-        assumptions=["allocation sites are those reached by the 36 scenarios (listed in the evidence labels)", "realloc failure leaves the old block valid, as the C library does"],
+        assumptions=["allocation sites are those reached by the 42 scenarios (listed in the evidence labels)", "realloc failure leaves the old block valid, as the C library does"],
     ),
     "C20": dict(
         level="exploration", monitors={"mon_life": {"sources": ["mon_life.c", "vf_alloc.c", "vf.c"], "link": ["-Wl,--wrap=malloc,--wrap=calloc,--wrap=realloc,--wrap=free"]}},
@@ -442,7 +442,7 @@ MANIFEST_TEXT["C14"] = dict(
 
 MANIFEST_TEXT["C15"] = dict(
     technique="fault injection by link-time wrapping of malloc/calloc/realloc/free with exhaustive enumeration of the failing allocation index per scenario, under ASan, with live-block accounting",
-    level_text="Fault enumeration: for each of 36 API scenarios every allocation index k is failed once and persistently; crash, leak (live-block accounting), broken-region propagation, reporting and write confinement are checked after every injected run.",
+    level_text="Fault enumeration: for each of 42 API scenarios every allocation index k is failed once and persistently; crash, leak (live-block accounting), broken-region propagation, reporting and write confinement are checked after every injected run.",
     level_note="trusted: the wrappers in harness/vf_alloc.c; sites not reached by the scenarios are not covered")
 
 MANIFEST_TEXT["C17"] = dict(
